@@ -142,3 +142,16 @@ Example contraction_demo :
   ContractionCount.clookup 2 (cmap shs) = None /\
   contraction_string (Some shs) false = inr "(10s,4p) -> [4s,2p]".
 Proof. vm_compute. repeat split; reflexivity. Qed.
+
+(* the list contraction_string actually renders (the map sorted by angular momentum): increasing l, every l at most
+   once, and for every l exactly the sums above - sorting loses and changes nothing (Proofs/ContractionSort.v) *)
+From Coq Require Import Sorting.Sorted.
+From BSE Require Proofs.ContractionSort.
+Theorem contraction_rendered_map :
+  forall am shs,
+    Sorted ContractionSort.key_le (sort_cmap (cmap shs)) /\ NoDup (ContractionSort.keys (sort_cmap (cmap shs))) /\
+    ContractionCount.clookup am (sort_cmap (cmap shs)) =
+    if ContractionCount.occurs am shs
+    then Some (ContractionCount.prims_of am shs, ContractionCount.conts_of am shs) else None.
+Proof. exact ContractionSort.rendered_map_lemma. Qed.
+Print Assumptions contraction_rendered_map.
